@@ -3,6 +3,8 @@
 
       quad_extrema          quadbez.rs   impl ParamCurveExtrema for QuadBez :: extrema (352-373)
       cubic_one_coord       cubicbez.rs  fn one_coord nested in CubicBez::extrema (697-708)
+      cubic_one_coord_lifted  NOT the code: one_coord after proposed_fixes/C08-tiny-derivative.diff (witness of
+                            known finding C08-tiny-derivative only)
       cubic_extrema         cubicbez.rs  impl ParamCurveExtrema for CubicBez :: extrema (695-715)
       line_extrema          line.rs      impl ParamCurveExtrema for Line (empty)
       seg_extrema           bezpath.rs   impl ParamCurveExtrema for PathSeg (912)
@@ -16,7 +18,7 @@
     capacity (a panic on the fifth push) is not part of the model: the theorems show the
     length never exceeds 4. *)
 
-From Coq Require Import ZArith List Bool.
+From Coq Require Import ZArith QArith List Bool Floats.
 From KV Require Import Scalar Geom Curves Rect Path Solvers.
 Import ListNotations.
 
@@ -59,8 +61,25 @@ Definition extrema_filter (roots : list T) : list T := filter in_open01 roots.
 Definition oc_a (d0 d1 d2 : T) : T := d0 - f2 * d1 + d2.
 Definition oc_b (d0 d1 : T) : T := f2 * (d1 - d0).
 
+(** [one_coord] (cubicbez.rs 697-708), literally *)
 Definition cubic_one_coord (d0 d1 d2 : T) : list T :=
   extrema_filter (solve_quadratic d0 (oc_b d0 d1) (oc_a d0 d1 d2)).
+
+(** Not the pinned code: [one_coord] as proposed_fixes/C08-tiny-derivative.diff would make it (only
+    used by the witness of known finding C08-tiny-derivative).  The result should not depend on
+    the magnitude of the control polygon, but [solve_quadratic] cannot form the reciprocal of a
+    sub-normal leading coefficient (it overflows) and then solves the *linear* equation although
+    the other coefficients are just as small; lifting a derivative whose coefficients are all
+    below 1e-200 by 2^600 (an exact operation that does not move the roots) avoids that. *)
+Definition oc_tiny : T := flit 0x1.87e92154ef7acp-665%float (Qmake 1 (10 ^ 200)).   (* 1e-200 *)
+Definition oc_lift : T := flit 0x1p+600%float (Qmake (2 ^ 600) 1).                    (* 2^600 *)
+Definition oc_scale (d0 d1 d2 : T) : T :=
+  let m := fmax (fmax (fabs d0) (fabs d1)) (fabs d2) in
+  if m <? oc_tiny then oc_lift else f1.
+
+Definition cubic_one_coord_lifted (d0 d1 d2 : T) : list T :=
+  let s := oc_scale d0 d1 d2 in
+  cubic_one_coord (d0 * s) (d1 * s) (d2 * s).
 
 (** [result.sort_by(|a, b| a.partial_cmp(b).unwrap())] on at most four values, none NaN (a NaN
     never passes the filter): a stable insertion sort (what the standard library runs on short
